@@ -29,8 +29,8 @@ EVENTS = [['none'], ['presence_down', 0], ['identity_groups', 'g', 1],
           ['schedule', 3], ['delete', 0], ['server_state', 1, 'frozen', []]]
 
 # what happens between publication and the restart
-BETWEEN = ['nothing', 'presence_restarted0', 'presence_gone0',
-           'record_shrunk0']
+BETWEEN = ['nothing', 'stale_record_first', 'presence_restarted0',
+           'presence_gone0', 'record_shrunk0']
 
 
 def subharnesses(tier):
@@ -42,7 +42,8 @@ def subharnesses(tier):
             if ev[0] == 'schedule' and len(store['apps']) > 2:
                 continue
             for bt in (BETWEEN if tier == 'thorough' or ev[0] == 'none'
-                       else BETWEEN[:1]):
+                       else (BETWEEN[:2] if ev[0] == 'presence_down'
+                             else BETWEEN[:1])):
                 spec = dict(store, nservers=2, events=[ev], between=bt)
                 subs.append(('%s-%s-%s' % (sname, '_'.join(
                     str(x) for x in ev if not isinstance(x, (list, dict))),
@@ -69,6 +70,12 @@ def harness(S, spec):
     states1 = {n: s.state.value for n, s in m1.servers.items()}
     changed = set()
     bt = spec['between']
+    if bt == 'stale_record_first':
+        # left-over records of instances that were deleted while no master
+        # ran; their names sort before the healthy ones
+        for srv in ('s0', 's1'):
+            b.seed('/placement/%s/proid.aaa#0000000009' % srv,
+                   {'identity': None, 'expires': 1})
     if bt == 'presence_restarted0':
         b.unseed('/server.presence/s0')
         b.seed('/server.presence/s0', {})        # newer than any placement
